@@ -3,7 +3,7 @@ import itertools
 import random
 from ..runner import Registry
 from .. import spec as SP
-from .common import gen_measure
+from .common import gen_measure, same_state_keys
 
 REG = Registry("C03")
 
@@ -63,7 +63,9 @@ def _mk_general(key, R, cache, mat_modes, vec_modes):
                 forms, lts = [(None, None), (None, None)], "ij"
         else:
             lts = letters
+        keys0 = set(u.__dict__)
         val = u.integrate(key, **kwargs)                            # REAL
+        same_state_keys(w, "frame/no-undeclared-cache", u, keys0)
         E = SP.wick(w, mu, uv["S"], forms, lts, out, "D")
         mass = xp.exp(lnmass)
         spec = mass.reshape(mass.shape + (1,) * len(out)) * E if not w.symbolic else _scale(w, mass, E, len(out))
@@ -90,7 +92,9 @@ def _mk_special(key, R, cache, shared):
         B = [R] if R != 1 else [1]
         if key == "xb'xx'":
             b = w.arr("bv", "D") if shared else w.arr("bv", *B, "D")
+            keys0 = set(u.__dict__)
             val = u.integrate(key, b_vec=b)                          # REAL
+            same_state_keys(w, "frame/no-undeclared-cache", u, keys0)
             b3 = b[None, None] if shared else b[:, None]
             forms = [(None, None), (b3, None), (None, None)]
         else:
@@ -107,7 +111,9 @@ def _mk_special(key, R, cache, shared):
             else:
                 A, a = w.arr("Am", *B, 1, "D"), w.arr("av", *B, 1)
                 A3, a2 = A, a
+            keys0 = set(u.__dict__)
             val = u.integrate(key, A_mat=A, a_vec=a)                 # REAL
+            same_state_keys(w, "frame/no-undeclared-cache", u, keys0)
             forms = [(None, None), (A3, a2), (None, None)]
         E = SP.wick(w, mu, uv["S"], forms, "iuj", "ij", "D")
         w.equal("value", val, mass[:, None, None] * E)
